@@ -9,9 +9,10 @@ Tie:
     recorder (harness/sched.py), canonicalises the mutating calls (object ids -> o<n>, temp/lock names ->
     tmp<n>, pack names -> p<n>, refs -> r<n>) and emits them as Lean terms (Gen/Traces.lean) with one
     `checkProgram … = true := by decide +kernel` obligation per scenario (Gen/TracesChecked.lean, imported by
-    Props/C09.lean) — `= false` plus a `decide`d counterexample prefix where the REAL crash states of the
-    scenario violate the property (the F8 windows).  Reordering two renames in dulwich changes the generated
-    term and breaks an obligation.
+    Props/C09.lean) — `= false` plus a `decide`d counterexample prefix where the REAL crash states of a
+    scenario violate the property (none on the current tree: the two F8 windows were fixed by /repo bb5afda;
+    their classes stay recognised so that a regression is named precisely).  Reordering two renames in
+    dulwich changes the generated term and breaks an obligation.
   * run(): for every scenario (the fixed ones + seeded random variants) EVERY prefix of the recorded program
     is materialised on disk (replayed onto a copy of the start state; the replay is cross-checked against
     the live state at every recorded boundary and right after every open()) and the property's own words
@@ -2032,9 +2033,11 @@ def _run_corpus(ctx: core.Ctx, fixed: dict):
             continue
         rec, cn, ev = fixed[name]
         hit = [x for x in ev.failures if x[4] == c.get("class")]
-        ctx.count("corpus", f.name, True, "still-fails" if hit else "no-longer-fails")
-        if not hit:
+        expect_holds = c.get("expect") == "holds"      # witness of a FIXED finding: must not fail any more
+        ctx.count("corpus", f.name, True, ("still-fails" if hit else "holds") + ("/expected-holds" if expect_holds else ""))
+        if not hit and not expect_holds:
             ctx.notes.append(f"corpus witness {f.name} no longer fails (class {c.get('class')})")
+        # (a regression is reported by the crash.oracle stream itself: fixed findings suppress nothing)
 
 
 def search(ctx: core.Ctx):
